@@ -12,7 +12,7 @@ pub(crate) fn any_conn() -> ConnectionId {
     ConnectionId(id)
 }
 
-pub(crate) fn any_end_state() -> ChannelEndState {
+fn any_end_state() -> ChannelEndState {
     match kani::any::<u8>() % 3 {
         0 => ChannelEndState::Unclaimed,
         1 => ChannelEndState::Claimed {
@@ -31,18 +31,34 @@ pub(crate) fn any_end() -> ChannelEnd {
     }
 }
 
-pub(crate) fn claimed(s: &ChannelEndState) -> Option<(ConnectionId, u32)> {
+fn claimed(s: &ChannelEndState) -> Option<(ConnectionId, u32)> {
     match s {
         ChannelEndState::Claimed { owner, capacity } => Some((*owner, *capacity)),
         _ => None,
     }
 }
 
-pub(crate) fn is_unclaimed(s: &ChannelEndState) -> bool {
+pub(crate) fn sender_claimed(c: &Channel) -> Option<(ConnectionId, u32)> {
+    claimed(&c.sender)
+}
+
+pub(crate) fn receiver_claimed(c: &Channel) -> Option<(ConnectionId, u32)> {
+    claimed(&c.receiver)
+}
+
+pub(crate) fn sender_unclaimed(c: &Channel) -> bool {
+    is_unclaimed(&c.sender)
+}
+
+pub(crate) fn receiver_unclaimed(c: &Channel) -> bool {
+    is_unclaimed(&c.receiver)
+}
+
+fn is_unclaimed(s: &ChannelEndState) -> bool {
     matches!(s, ChannelEndState::Unclaimed)
 }
 
-pub(crate) fn is_closed(s: &ChannelEndState) -> bool {
+fn is_closed(s: &ChannelEndState) -> bool {
     matches!(s, ChannelEndState::Closed)
 }
 
@@ -325,4 +341,7 @@ mod harnesses {
         let end = any_end();
         let _ = c.close(end);
     }
+
+    #[cfg(verif_replay)]
+    include!("/verif/.cache/replay/broker__channel__verif__harnesses.rs");
 }
